@@ -7,6 +7,9 @@ import (
 	"github.com/koykov/byteconv"
 )
 
+// Upper bound of iterations of iterative modifiers.
+const modMathMaxIter = 1 << 16
+
 func modAbs(ctx *Ctx, buf *any, val any, args []any) (err error) {
 	f, ok := floatConvAny(val, args)
 	if !ok {
@@ -151,12 +154,12 @@ func modMathRadical(ctx *Ctx, buf *any, val any, args []any) (err error) {
 	// Newton
 	root := f / d
 	rn := f
-	for math.Abs(root-rn) >= eps {
+	for n := 0; math.Abs(root-rn) >= eps && n < modMathMaxIter; n++ {
 		rn = f
-		for i := 1; i < int(d); i++ {
+		for i := 1; i < int(d) && i < modMathMaxIter; i++ {
 			rn = rn / root
 		}
-		root = .5 * (rn + root)
+		root = ((d-1)*root + rn) / d
 	}
 	ctx.BufF = root
 	*buf = &ctx.BufF
@@ -194,7 +197,7 @@ func modMathFact(ctx *Ctx, buf *any, val any, args []any) (err error) {
 		return
 	}
 	r := f
-	for i := 1; i < int(d); i++ {
+	for i := 1; i < int(d) && i < modMathMaxIter; i++ {
 		r *= f
 	}
 	ctx.BufF = r
